@@ -626,3 +626,12 @@ func SortSites(p *ir.P, s []KeySite) {
 
 // VariadicElems exposes variadicElems.
 func VariadicElems(v ssa.Value) []ssa.Value { return variadicElems(v) }
+
+// ShapeOf abstracts a single []byte value of the program into a key shape.
+func ShapeOf(p *ir.P, v ssa.Value) (KeyShape, error) {
+	e, err := ks(p)
+	if err != nil {
+		return nil, err
+	}
+	return e.shape(v, 0).Norm(), nil
+}
